@@ -574,11 +574,12 @@ def terminal_agreement(prop, scns, results):
 def extra_jobs(prop, tier, scns, results):
     jobs = []
     if prop == 'C11':
-        names = ['gauss', 'blob_float', 'wrap_net'] if tier == 'quick' else [
-            'gauss', 'blob_float', 'wrap_net', 'two', 'gauss_net', 'blob_two_obj', 'half']
+        names = ['gauss', 'blob_float', 'wrap_net', 'ring_net'] if tier == 'quick' else [
+            'gauss', 'blob_float', 'wrap_net', 'two', 'gauss_net', 'blob_two_obj', 'half', 'ring_net',
+            'funnel_net', 'nlb_ring', 'two_split']
         for s in scenarios.get(names):
             d = dict(s)
-            depth = 12 if tier == 'quick' else 60
+            depth = (40 if s.name == 'ring_net' else 12) if tier == 'quick' else 60
             jobs.append(('pair', d, dict(vectorized=False), dict(vectorized=True), 'scalar-vs-vectorized', depth))
             jobs.append(('pair', d, dict(verbose=False), dict(verbose=True), 'verbose', depth))
             jobs.append(('pair', d, dict(file=True), dict(file=False), 'file-vs-nofile', depth))
